@@ -14,6 +14,7 @@ mod c19;
 mod c20;
 mod c21;
 mod c24;
+mod c25;
 mod c26;
 mod c27;
 
@@ -37,6 +38,7 @@ fn main() {
         "c20" => c20::run(&args),
         "c21" => c21::run(&args),
         "c24" => c24::run(&args),
+        "c25" => c25::run(&args),
         "c26_rt" => c26::roundtrip(&args),
         "c26_hostile" => c26::hostile(&args),
         "c27_exh" => c27::exhaustive(&args),
